@@ -12,6 +12,8 @@ changed: the model is no longer known to follow the code, and the check searches
 -/
 import Orda.Gen.Shape
 import Orda.Gen.Expected
+import Orda.Gen.Facts2
+import Orda.Model.TxFlag
 namespace Orda.Shape.C09
 open Orda
 
@@ -22,5 +24,8 @@ theorem source_shape :
     Gen.Shape.client_pkg_operations_meta_go = Gen.Expected.client_pkg_operations_meta_go ∧
     Gen.Shape.client_pkg_orda_document_go = Gen.Expected.client_pkg_orda_document_go := by
   decide
+
+/-- the success flag that decides between commit and rollback is written where `Model/TxFlag` assumes -/
+theorem source_flag_facts : Gen.txFacts = TxFlag.currentFacts := by decide
 
 end Orda.Shape.C09
